@@ -294,8 +294,13 @@ def read_summary(text, width, name="lay.i"):
 # ------------------------------------------------------------------------------ re-layout
 C_LINE = re.compile(r"^ {0,4}[cC]( |$)")
 
-FEATURES = ("amp_low_indent", "amp_trailing_blank", "amp_then_comment", "trailing_blanks", "indented_comment",
-            "bare_c", "crlf", "message_added", "message_removed", "comment_ends_amp", "dollar_ends_amp")
+# features that the current reader is known to mishandle (one defect: continue_input = line.endswith(" &\n") on every
+# line; and: text after the data block): trigger predicates of the known findings decide from these
+UNTIDY = ("amp_trailing_blank", "amp_last_column", "amp_then_comment", "comment_ends_amp", "dollar_ends_amp",
+          "tail_text")
+SAFE = ("amp_low_indent", "trailing_blanks", "indented_comment", "bare_c", "crlf", "message_added", "message_removed",
+        "comment_trailing_blanks")
+FEATURES = SAFE + UNTIDY
 
 
 def split_front(lines):
@@ -308,8 +313,14 @@ def split_front(lines):
     return lines[:i + 1], lines[i + 1:]
 
 
+def xlen(l):
+    return len(l.expandtabs(8))
+
+
 def relayout(rng, text, allow=FEATURES, width=128):
-    """-> (new text, sorted list of features used).  Only re-layouts MCNP's format allows."""
+    """-> (new text, sorted list of features used).  Only re-layouts MCNP's format allows: nothing is added to a line
+    beyond the column limit, an '&' is never put on a line with a '$' comment, comment lines get their C in columns
+    1-5, the front matter (message block, title) is only touched by adding / removing a message block."""
     eol = "\r\n" if "\r\n" in text else "\n"
     lines = text.replace("\r\n", "\n").split("\n")
     if lines and lines[-1] == "":
@@ -317,39 +328,66 @@ def relayout(rng, text, allow=FEATURES, width=128):
     front, rest = split_front(lines)
     feats = set()
     out = []
-    prev_amp = False
+    prev_amp = False          # the previous data line of this block ends in a continuing '&'
+    prev_hidden = False       # ... and that '&' is one the current reader does not see
+    com_since = False         # a comment line has followed that '&' line
     for i, l in enumerate(rest):
         is_c = bool(C_LINE.match(l))
-        data = l.split("$")[0]
+        if is_c and prev_amp:
+            com_since = True
         if prev_amp and not is_c and l.strip():
             if "amp_then_comment" in allow and rng.random() < 0.25:
                 out.append(rng.choice(["c between", "C", "  c in between"]))
-                feats.add("amp_then_comment")
-            if "amp_low_indent" in allow and rng.random() < 0.5:
+                com_since = True
+            low_ok = "amp_low_indent" in allow and (not prev_hidden or "amp_last_column" in allow) \
+                and (not com_since or "amp_then_comment" in allow)
+            if low_ok and rng.random() < 0.5:
                 body = l.lstrip(" ")
                 k = rng.randint(0, 4)
                 # the line must not turn into a comment line or a vertical-format line
-                if not re.match(r"^[cC]( |$)", body) and "#" not in (" " * k + body)[:5] and "\t" not in body[:5]:
+                if not re.match(r"^[cC]( |$)", body) and "#" not in (" " * k + body)[:5] and "\t" not in body[:5] \
+                        and body and not l.startswith("\t"):
                     l = " " * k + body
                     feats.add("amp_low_indent")
-        amp = (not is_c) and "$" not in l and data.rstrip(" ").endswith(" &")
-        if l.strip() and "trailing_blanks" in allow and rng.random() < 0.15:
+                    if prev_hidden:
+                        feats.add("amp_last_column")
+                    if com_since:
+                        feats.add("amp_then_comment")
+        amp = (not is_c) and "$" not in l and l.rstrip(" ").endswith(" &")
+        hidden = amp and xlen(l.rstrip(" ")) >= width
+        if l.strip() and not is_c and "trailing_blanks" in allow and rng.random() < 0.15:
             n = rng.choice([1, 2, 5])
-            if len(l.expandtabs(8)) + n < width:
+            if xlen(l) + n < width and (not amp or "amp_trailing_blank" in allow):
                 l = l + " " * n
                 feats.add("amp_trailing_blank" if amp else "trailing_blanks")
-        if is_c and "indented_comment" in allow and rng.random() < 0.3 and not l.startswith(" "):
+        if is_c and "comment_trailing_blanks" in allow and rng.random() < 0.1 and xlen(l) + 3 < width:
+            l = l + "   "
+            feats.add("comment_trailing_blanks")
+        if is_c and "indented_comment" in allow and rng.random() < 0.3 and not l.startswith(" ") and xlen(l) + 4 < width:
             l = " " * rng.randint(1, 4) + l
             feats.add("indented_comment")
-        if is_c and "comment_ends_amp" in allow and rng.random() < 0.1 and l.strip().lower() != "c":
+        if is_c and "comment_ends_amp" in allow and rng.random() < 0.1 and l.strip().lower() != "c" \
+                and xlen(l.rstrip()) + 9 < width:
             l = l.rstrip() + " see a &"
             feats.add("comment_ends_amp")
+        if (not is_c) and l.strip() and "$" in l and "dollar_ends_amp" in allow and rng.random() < 0.2 \
+                and xlen(l.rstrip()) + 3 < width:
+            l = l.rstrip() + " &"
+            feats.add("dollar_ends_amp")
         out.append(l)
         if l.strip():
             if not is_c:
                 prev_amp = amp
+                prev_hidden = hidden
+                com_since = False
         else:
             prev_amp = False
+            prev_hidden = False
+            com_since = False
+    if "tail_text" in allow and rng.random() < 0.1 and out and not out[-1].strip():
+        out += rng.choice([["c end of the problem"], ["notes kept after the last blank line: not part of the problem"],
+                           ["c", "c  history", "c"], ["nps 5"]])
+        feats.add("tail_text")
     if "message_added" in allow and not front[0].upper().startswith("MESSAGE:") and rng.random() < 0.2:
         front = ["MESSAGE: " + rng.choice(["outp=o.txt", "datapath=/x/y"]), ""] + front
         feats.add("message_added")
